@@ -153,6 +153,7 @@ def run(ctx):
         cases += families.constant_operand_cases(rnd, 300, prefix="HK", funcs=sorted({s[0] for s in changed}))
     # Python scalar operands (values, signed zeros, sequences of Python-equal scalars)
     cases += families.scalar_operand_cases(rnd, 200 if ctx.tier == "quick" else 2000)
+    cases += families.pow_special_cases(rnd, 120 if ctx.tier == "quick" else 1200)
     family.evaluate(ctx, cases, want=("oracle", "traced"))
     ctx.sample({"case": cases[0]["impl"], "inputs": {k: v["shape"] for k, v in cases[0]["inputs"].items()}, "dtype": cases[0]["meta"]["dtype"]})
     ctx.coverage.update({
